@@ -135,6 +135,56 @@ theorem base1_of_carries (lo : Int) (hlo : 1 ≤ lo) (b : Bool) (x : Int) (h : C
   unfold Carries at h; unfold base1
   cases b <;> simp at h <;> split <;> omega
 
+/-! ## the stream cost in terms of frame positions -/
+
+theorem randSoft_getD (xs : List Int) (j : Nat) (hj : j < xs.length) :
+    (randSoft xs).getD j 0 = narrow8 (xs.getD j 0 * dcSign j) := by
+  unfold randSoft
+  have : ∀ (l : List Int) (k j : Nat), j < l.length →
+      ((l.zipIdx k).map (fun (x : Int × Nat) => narrow8 (x.1 * dcSign x.2))).getD j 0 = narrow8 (l.getD j 0 * dcSign (k + j)) := by
+    intro l
+    induction l with
+    | nil => intro k j h; simp at h
+    | cons a l ih =>
+      intro k j h
+      cases j with
+      | zero => simp [List.zipIdx_cons]
+      | succ j =>
+        simp only [List.zipIdx_cons, List.map_cons, List.getD_cons_succ]
+        rw [ih (k + 1) j (by simpa using h)]
+        have e : k + 1 + j = k + (j + 1) := by omega
+        rw [e]
+  have h := this xs 0 j hj
+  simpa using h
+
+theorem drop96 : List.drop 96 (List.range 368) = List.range' 96 272 := by
+  rw [List.range_eq_range', List.drop_range']
+
+/-- the stream cost in terms of FRAME positions: the 272 positions that the interleaver maps to de-interleaved indices 96..367 -/
+theorem stream_slack_positions (frame : List Int) (hf : frame.length = 368) (h8 : I8 frame) :
+    sumB ((deinterleaveSoft (randSoft frame)).drop 96) =
+      ((List.range' 96 272).map (fun i => base1 7 (frame.getD (index i) 0))).sum := by
+  unfold deinterleaveSoft gather
+  rw [C10.K_eq]
+  unfold sumB
+  have hidx : ∀ i, index i < 368 := fun i => by
+    have := Nat.mod_lt (Gen.ileaveF1 * i + Gen.ileaveF2 * i * i) (show 0 < K by rw [C10.K_eq]; decide)
+    rw [C10.K_eq] at this; exact this
+  have e : ((List.range 368).map (fun i => (randSoft frame).getD (index i) 0)).drop 96
+      = (List.range' 96 272).map (fun i => (randSoft frame).getD (index i) 0) := by
+    rw [← List.map_drop, drop96]
+  rw [e, List.map_map]
+  congr 1
+  apply List.map_congr_left
+  intro i _
+  simp only [Function.comp]
+  rw [randSoft_getD frame (index i) (by rw [hf]; exact hidx i)]
+  apply base1_rand
+  have hmem : frame.getD (index i) 0 ∈ frame := by
+    rw [List.getD_eq_getElem?_getD, List.getElem?_eq_getElem (by rw [hf]; exact hidx i)]
+    simp
+  exact h8 _ hmem
+
 /-! ## non-vacuity -/
 example : sumB [7, -7, 3, -1] = 10 := by decide
 
